@@ -103,6 +103,9 @@ func mkC10() *Scenario {
 		if arg.Source == "rain" {
 			w.Cfg.DisableOutgoingEncryption = false
 		}
+		if arg.Source == "fastchoke" {
+			w.Cfg.DefaultRequestsOut = 2
+		}
 		w.OpenSession()
 		opt := &torrent.AddTorrentOptions{Stopped: true, Sequential: arg.Seq}
 		w.AddTorrent(g, opt)
@@ -110,6 +113,29 @@ func mkC10() *Scenario {
 		o.Script = append(o.Script, &ScriptItem{Label: "start", Do: func(w *World) { w.CmdStart() }})
 		if arg.Source == "web" || arg.Source == "both" {
 			ws = w.NewWebSeed("10.9.9.9", g)
+		}
+		if arg.Source == "fastchoke" {
+			// an honest BEP 6 seed that keeps choking for a while: it grants every piece as allowed-fast, serves
+			// whatever is requested and unchokes once nothing else is going on. Request batches of 2 blocks.
+			p1 = w.NewPeer("p1", "10.0.0.1", 5001)
+			p1.Fast = true
+			// (empty bitfield, allowed-fast grants, then a have for every piece: the client learns the grant
+			// before it learns that the peer has the piece)
+			b := &PeerBehaviour{Honest: true, NoUnchoke: true, Have: make([]byte, (g.NumPieces+7)/8)}
+			for i := 0; i < g.NumPieces; i++ {
+				b.ExtraMsgs = append(b.ExtraMsgs, refcodec.AllowedFast(uint32(i)))
+			}
+			for i := 0; i < g.NumPieces; i++ {
+				b.ExtraMsgs = append(b.ExtraMsgs, refcodec.Have(uint32(i)))
+			}
+			o.Behaviour["p1"] = b
+			o.Script = append(o.Script, &ScriptItem{Label: "connect p1", When: func(w *World) bool { return w.Listening() }, Do: func(w *World) {
+				if err := p1.ConnectIn(w.Tor.VerifState().Port, g.InfoHash); err != nil {
+					w.Failf("lab.connect", "connect refused: %v", err)
+				}
+			}}, &ScriptItem{Label: "p1 unchokes", When: func(w *World) bool { return p1.Connected() && p1.Announced }, Do: func(w *World) {
+				p1.Send(refcodec.Simple(refcodec.MsgUnchoke))
+			}})
 		}
 		if arg.Source == "peer" || arg.Source == "both" {
 			p1 = w.NewPeer("p1", "10.0.0.1", 5001)
@@ -160,9 +186,17 @@ func mkC10() *Scenario {
 		if arg.Adv {
 			p2 = w.NewPeer("p2", "10.0.0.2", 5002)
 			o.Behaviour["p2"] = &PeerBehaviour{Honest: true}
-			o.Script = append(o.Script, &ScriptItem{Label: "connect p2", When: func(w *World) bool { return w.Listening() }, Do: func(w *World) {
-				p2.ConnectIn(w.Tor.VerifState().Port, g.InfoHash)
-			}})
+			// p2 joins together with p1 (a script item of its own would only fire once p1 has served everything)
+			for _, it := range o.Script {
+				if it.Label == "connect p1" {
+					do1 := it.Do
+					it.Label = "connect p1+p2"
+					it.Do = func(w *World) {
+						do1(w)
+						p2.ConnectIn(w.Tor.VerifState().Port, g.InfoHash)
+					}
+				}
+			}
 			o.Extra = func(w *World) []Action {
 				var a []Action
 				if p2.Connected() && p2.Announced {
@@ -170,6 +204,7 @@ func mkC10() *Scenario {
 						a = append(a, Action{Label: "adv:p2:corrupt", Do: func(w *World) {
 							if r, ok := p2.PopRequest(); ok {
 								p2.Serve(w.G, r, true)
+								w.Count("p2_corrupt_blocks", 1)
 							}
 						}})
 						a = append(a, Action{Label: "adv:p2:stall", Do: func(w *World) {
@@ -324,7 +359,7 @@ func bytesReader(b []byte) *strings.Reader { return strings.NewReader(string(b))
 func TestC10(t *testing.T) {
 	ServeIfWorker(t)
 	rep := core.NewReport("C10", "lab-completion", "model_checking")
-	rep.Rule = "layout lattice (16 KiB-scaled: single/multi file, empty files, leading/trailing/inner/whole-piece padding, piece length 16/32/48 KiB, odd sizes) x {rarest, sequential} x source {peer, web seed, both, real rain seeder over MSE}; each under the eager fair schedule (budget 0) and, on a subset with a second misbehaving peer / failing web seed, every single deviation (budget 1)"
+	rep.Rule = "layout lattice (16 KiB-scaled: single/multi file, empty files, leading/trailing/inner/whole-piece padding, piece length 16/32/48 KiB, odd sizes) x {rarest, sequential} x source {peer, web seed, both, real rain seeder over MSE, choking BEP 6 seed granting allowed-fast (request batches of 2)}; each under the eager fair schedule (budget 0) and, on a subset with a second misbehaving peer / failing web seed, every single deviation (budget 1)"
 	rep.Assumptions = []string{"bounded liveness: completion within the horizon under the fair default continuation", "the other parties' misbehaviour is limited to the deviation alphabet (corrupt, stall, choke, disconnect, web seed 500/drop)"}
 	layouts := c10Layouts(core.Thorough())
 	var runs []Run
@@ -343,6 +378,16 @@ func TestC10(t *testing.T) {
 			a := l
 			a.Source = "rain"
 			runs = append(runs, Run{Scenario: "c10", Arg: a, Budget: 0})
+		}
+	}
+	// a choking fast-extension seed that grants every piece as allowed-fast
+	for i, l := range layouts {
+		if i%5 == 0 {
+			for _, seq := range []bool{false, true} {
+				a := l
+				a.Source, a.Seq = "fastchoke", seq
+				runs = append(runs, Run{Scenario: "c10", Arg: a, Budget: 0})
+			}
 		}
 	}
 	// deviations by other parties
